@@ -41,6 +41,7 @@ type Variant struct {
 	Polygon  bool `json:"polygon,omitempty"`  // relation parents are tagged type=multipolygon and their members carry the roles outer / inner
 	Late     int  `json:"late,omitempty"`     // every child history of more than Late versions is handed over without its first Late versions (a history extract that starts later: parents before it reference a child that is "not yet there")
 	Refilter int  `json:"refilter,omitempty"` // x+1: after the judged call the same parents are annotated again with a ChildFilter accepting only child x (the incremental workflow: one child changed); nothing about the histories changed, so the same truth is judged again
+	AsList   bool `json:"as_list,omitempty"`  // the datasource is OSM.HistoryDatasource() of ONE element list in which the histories are dealt out one version at a time (the versions of an id are not adjacent)
 	Strip    int  `json:"strip,omitempty"`    // which elements come without a commit time (stripXxx); only in spaces whose upload instants are whole seconds
 }
 
@@ -87,6 +88,8 @@ func (v Variant) class() string {
 		return "multipolygon-parent"
 	case v.Shuffled:
 		return "unsorted-histories"
+	case v.AsList:
+		return "element-list-datasource"
 	case v.Explicit:
 		return "explicit-defaults"
 	case v.Filter != -1:
